@@ -40,13 +40,14 @@ PROPS["C02"] = {
 
 PROPS["C08"] = {
     "kani": "c08",
+    "mir": "c08",
     "native_validate": [{"id": "N-1", "args": ["triecheck"],
                          "desc": "the trie arrays the SuRF probe harnesses (A-5*) start from equal SurfTrie::build_from_sorted for every pair of 3-byte keys over the alphabet {0,1,2,127,128,255} (23436 pairs), native dev build"}],
     "level": "model_checking",
     "explanation": "Bounded model checking (Kani/CBMC) of the pruning kernels that are executable symbolically: the order-preserving key encodings shared by the SuRF builder and the range probe (same-kind and cross-kind literals), the per-zone time index (builder invariant + query side from any state satisfying it) and the calendar's bucket arithmetic. Soundness is asserted as: whenever a stored value satisfies the probe, the structure's comparison keeps the zone.",
     "outside": [
         "the trie builder under the solver (SurfTrie::build_from_sorted uses a HashMap): the probe harnesses start from hand-written trie arrays that a native run compares with the real builder; keys longer than 3 bytes, more than two keys per zone, the 16-lane SIMD child scan (needs >= 16 children)",
-        "enum bitmaps, calendar index (HashMap<u32,RoaringBitmap>, incl. the u32 bucket-id truncation and the min_ts >= 0 insertion guard in the async builder), XOR / binary-fuse filters, context index, index catalog, the >90% fallback rule: HashMap / roaring / xorf / I-O bound",
+        "enum bitmaps, the calendar index's bitmap operations (HashMap<u32,RoaringBitmap>; its bucket-id function is decided by Engine B, B-1), the min_ts >= 0 insertion guard in the async temporal builder, XOR / binary-fuse filters, context index, index catalog, the >90% fallback rule: HashMap / roaring / xorf / I-O bound",
         "strings and booleans as range keys; floats with |x| >= 9e18 (u64 / f64 fall-back lanes)",
         "bucket arithmetic beyond 2^34 epoch seconds under Kani (bit-blasted constant dividers)",
     ],
@@ -195,6 +196,9 @@ PROPS["C06"] = {
         "'leaves no trace in any later read' (histories), unparseable times inside chrono, parser-level rejection of non-flat payloads",
     ],
 }
+
+PROPS["C08"]["trusted_base"] = MIR_TRUSTED
+PROPS["C02"]["trusted_base"] = MIR_TRUSTED
 
 # Properties not (or not yet) claimed, each with the reason. Entries are removed from here
 # when a check for the property is registered in PROPS.
